@@ -341,8 +341,13 @@ def finish(mod, tier, seed, shapes, results, unexplored, known, wall, extra_erro
     os.makedirs(os.path.join(VERIF, 'evidence'), exist_ok=True)
     with open(os.path.join(VERIF, 'evidence', f'{prop}.json'), 'w') as f:
         json.dump(ev, f, indent=1, default=str)
+    slow = sorted(((r.get('shape_wall_s', 0), r['shape']) for r in results), reverse=True)[:4]
+    ev['coverage']['slowest_shapes'] = slow
+    with open(os.path.join(VERIF, 'evidence', f'{prop}.json'), 'w') as f:
+        json.dump(ev, f, indent=1, default=str)
     for ln in lines:
         print(ln)
+    print('slowest shapes:', slow)
     print(f'{prop} tier={tier} shapes={n}/{len(shapes)} conclusive={len(conclusive)} inconclusive={len(inconc)} '
           f'unexplored={unexplored} paths={paths} queries={queries} solver_s={solver_s} obligations={obligations} '
           f'discharged={discharged} validated={ev["coverage"]["traces_validated_against_impl"]} '
